@@ -11,6 +11,7 @@ let () =
    | [ _; "abspar"; file; child ] -> Drv_abspar.abspar file child
    | [ _; "absprom"; file ] -> Drv_absprom.absprom file
    | [ _; "absast"; file; kind; id ] -> Drv_absast.absast file kind id
+   | [ _; "absdl"; file ] -> Drv_absdl.absdl file
    | [ _; "codec-mesh"; file ] -> Drv_codec.codec_mesh file
    | [ _; "codec-image"; file ] -> Drv_codec.codec_image file
    | [ _; "codec-msg"; file ] -> Drv_codec.codec_msg file
